@@ -139,8 +139,17 @@ def r12_2b(ctx):
 
 def r12_3(ctx):
     r = RuleResult("R12.3", "K5+K1", "fragments contiguous under one queue lock; B/E flags; SSN under send_lock")
-    b = ctx.body("transports::sctp::SctpInner::send_data_raw::{closure#0}")
-    r.scope.append(b.name)
+    sd = ctx.body("transports::sctp::SctpInner::send_data_raw::{closure#0}")
+    r.scope.append(sd.name)
+    # the fragment loop lives in send_data_raw itself or in the synchronous helper it hands the message to
+    helper = "transports::sctp::SctpInner::enqueue_message"
+    b = ctx.body(helper) if ctx.facts.has_body(helper) else sd
+    if b is not sd:
+        r.scope.append(b.name)
+        hc = [bi for bi, t, p in sd.calls() if p and p.endswith("::enqueue_message")]
+        r.need("enqueue_message calls in send_data_raw", len(hc), 2)
+        if b.rec.get("async") or any(blk["t"]["k"] == "yield" for blk in b.blocks):
+            r.violate(b.name, "helper:async", b.where(0), "the fragment-queueing helper can suspend: fragments of concurrent messages can interleave")
     pushes = [bi for bi, t, p in core.calls_to(b, suffix("VecDeque::<T, A>::push_back")) if mir.has_field(b.term_operand(t["a"][0]), "outbound_queue")]
     r.need("outbound_queue pushes", len(pushes), 2)
     loops = b.loops()
@@ -188,13 +197,22 @@ def r12_3(ctx):
                         r.violate(b.name, "flag:E", b.where(bi, si), "E (end) flag set on a fragment that is not the last")
     r.need("B flag sites", nB, 1)
     r.need("E flag sites", nE, 1)
-    ssn = [(bi, t) for bi, t, p in core.calls_to(b, suffix("::fetch_add")) if b.term_operand(t["a"][0])[0] == "field" and b.term_operand(t["a"][0])[2] == "next_ssn"]
+    ssn = [(bi, t) for bi, t, p in core.calls_to(sd, suffix("::fetch_add")) if sd.term_operand(t["a"][0])[0] == "field" and sd.term_operand(t["a"][0])[2] == "next_ssn"]
     r.need("next_ssn.fetch_add sites", len(ssn), 1)
     for bi, t in ssn:
-        if any(f == "send_lock" for f, _ in core.held_locks_at(b, bi)):
-            r.ok({"site": b.where(bi), "under": "dc.send_lock"})
+        if any(f == "send_lock" for f, _ in core.held_locks_at(sd, bi)):
+            r.ok({"site": sd.where(bi), "under": "dc.send_lock"})
         else:
-            r.violate(b.name, "fetch_add:next_ssn", b.where(bi), "SSN drawn without the per-channel send_lock")
+            r.violate(sd.name, "fetch_add:next_ssn", sd.where(bi), "SSN drawn without the per-channel send_lock")
+        if b is not sd:
+            # ... and the message is handed to the helper while that lock is still held
+            after = sd.reachable([x for x, _ in sd.succ_edges(bi)])
+            lock_b = [lb for f, lb in core.held_locks_at(sd, bi) if f == "send_lock"]
+            for hb in [x for x in hc if x in after]:
+                if lock_b and core.guard_live_at(sd, lock_b[0], hb):
+                    r.ok({"site": sd.where(hb), "queued under": "dc.send_lock"})
+                else:
+                    r.violate(sd.name, "enqueue:without-send_lock", sd.where(hb), "the message that drew the SSN is queued after the send lock was released: two sends can queue in the other order")
     # the send_lock guard stays alive until the fragments are enqueued: no drop of the `_guard` holder before the pushes
     return r
 
@@ -940,5 +958,41 @@ def r12_18(ctx):
     return r
 
 
+def r12_19(ctx):
+    """'Each channel announces Open exactly once before its first message': a pre-negotiated channel is announced open by
+    handle_cookie_ack. The peer is established as soon as it has our COOKIE ECHO and may send at once; when its COOKIE ACK
+    is lost, that DATA arrives while T1 still carries our COOKIE ECHO. Taking it delivers Message before Open. RFC 4960 6:
+    DATA is not taken during the own handshake. Decided: in handle_data everything that takes the chunk (the payload
+    handler, the reorder-buffer insert, the receive-point store) is on the `t1_chunk.lock().is_some() == false` edge."""
+    r = RuleResult("R12.19", "K1", "no DATA is taken while the own handshake (T1) is still running")
+    b = ctx.body("transports::sctp::SctpInner::handle_data::{closure#0}")
+    r.scope.append(b.name)
+    sites = [(bi, "process_data_payload") for bi, t, p in b.calls() if p and p.endswith("::process_data_payload")]
+    sites += [(bi, "received_queue.insert") for bi, t, p in b.calls() if p and p.endswith("::insert") and t["a"] and
+              mir.has(b.term_operand(t["a"][0]), lambda x: x[0] == "call" and x[1].endswith("::lock") and x[2] and mir.has_field(x[2][0], "received_queue"))]
+    sites += [(bi, "cumulative_tsn_ack.store") for bi, t, a in core.atomic_sites(b, "cumulative_tsn_ack", "store")]
+    r.need("sites taking a DATA chunk in handle_data", len(sites), 4)
+
+    def handshake_over(term, meaning, *_):
+        t, neg = term, False
+        while t[0] == "un" and t[1] == "Not":
+            t, neg = t[2], not neg
+        if t[0] == "call" and t[1].endswith(("Option::<T>::is_some", "Option::<T>::is_none")) and isinstance(meaning, bool) and \
+                mir.has(t, lambda x: x[0] == "call" and x[1].endswith("::lock") and x[2] and mir.has_field(x[2][0], "t1_chunk")):
+            return (meaning != neg) is t[1].endswith("is_none")
+        if t[0] == "discr" and meaning == "None" and mir.has_field(t[1], "t1_chunk"):
+            return True
+        return False
+    g = core.guard_edges(b, handshake_over)
+    for bi, what in sites:
+        if g and core.k1(b, [bi], g)[bi] is None:
+            r.ok({"site": b.where(bi), "what": what, "cut_by": "T1 not running"})
+        else:
+            r.violate(b.name, "data-during-handshake:%s" % what, b.where(bi),
+                      "handle_data takes a chunk (%s) while T1 may still carry our INIT / COOKIE ECHO: DATA overtaking a lost COOKIE ACK is "
+                      "delivered on a pre-negotiated channel before it has announced Open" % what)
+    return r
+
+
 def run(ctx):
-    return [r12_1(ctx), r12_2(ctx), r12_2b(ctx), r12_3(ctx), r12_4(ctx), r12_5(ctx), r12_7(ctx), r12_8(ctx), r12_9(ctx), r12_10(ctx), r12_11(ctx), r12_12(ctx), r12_13(ctx), r12_14(ctx), r12_15(ctx), r12_16(ctx), r12_17(ctx), r12_18(ctx)]
+    return [r12_1(ctx), r12_2(ctx), r12_2b(ctx), r12_3(ctx), r12_4(ctx), r12_5(ctx), r12_7(ctx), r12_8(ctx), r12_9(ctx), r12_10(ctx), r12_11(ctx), r12_12(ctx), r12_13(ctx), r12_14(ctx), r12_15(ctx), r12_16(ctx), r12_17(ctx), r12_18(ctx), r12_19(ctx)]
